@@ -219,6 +219,16 @@ var c19Components = []struct {
 	{"[H,*-*]", func(c civil) string { return fmt.Sprint(c.H) }},
 	{"[MNn,3-*]", func(c civil) string { return monthNames[c.M] }},
 	{"[Y,5-*]", func(c civil) string { return fmt.Sprintf("%05d", c.Y) }},
+	// the same width modifier, and no presentation, on components whose default
+	// presentations differ (a name, a number, a two-digit number): what a marker
+	// means does not depend on the markers rendered before it
+	{"[F,*-3]", func(c civil) string { return strings.ToLower(dayNames[c.Wd][:3]) }},
+	{"[M,*-3]", func(c civil) string { return fmt.Sprint(c.M) }},
+	{"[m,*-3]", func(c civil) string { return fmt.Sprintf("%02d", c.Mi) }},
+	{"[D,2]", func(c civil) string { return fmt.Sprintf("%02d", c.D) }},
+	{"[s,2]", func(c civil) string { return fmt.Sprintf("%02d", c.S) }},
+	{"[H,2]", func(c civil) string { return fmt.Sprintf("%02d", c.H) }},
+	{"[F,2]", func(c civil) string { return strings.ToLower(dayNames[c.Wd]) }},
 }
 
 var c19Pic string
